@@ -78,6 +78,30 @@ def generate(rng, tier, shard, nshards):
             # operands near each other so that boxes overlap / nest / are disjoint with different pads
             yield {'lane': 'compound', 'region': reg, 'mode': 'center', 'n': 1}
             continue
+        if r < 0.28:
+            # lattice lane: centre on the half-integer lattice, sizes multiples of 1/2, no rotation, 1/2/4 sub-samples per
+            # axis - every sample position and every squared distance is exact in binary floating point, so samples lying
+            # EXACTLY on the outline (axis tips, Pythagorean offsets, rectangle edges) are decided, not skipped
+            cls = rng.choice(['CirclePixelRegion', 'CirclePixelRegion', 'CircleAnnulusPixelRegion', 'RectanglePixelRegion', 'RectangleAnnulusPixelRegion'])
+            c = S.pix(rng.randint(-40, 40) + rng.choice([0.0, 0.0, 0.5]), rng.randint(-40, 40) + rng.choice([0.0, 0.0, 0.5]))
+            k = rng.choice([rng.randint(1, 120), rng.choice([5, 10, 13, 14, 25, 27, 28, 29, 50, 54, 58, 65, 7])])        # radius = k/2 or k
+            rad = k / 2 if rng.random() < 0.5 else float(k)
+            if cls == 'CirclePixelRegion':
+                reg = S.reg(cls, center=c, radius=rad)
+            elif cls == 'CircleAnnulusPixelRegion':
+                reg = S.reg(cls, center=c, inner_radius=rad, outer_radius=rad + rng.randint(1, 30) / 2)
+            elif cls == 'RectanglePixelRegion':
+                reg = S.reg(cls, center=c, width=float(rng.randint(1, 60)), height=rng.randint(1, 120) / 2, angle=S.q(0.0, 'deg'))
+            else:
+                w, h = float(rng.randint(1, 40)), rng.randint(1, 80) / 2
+                reg = S.reg(cls, center=c, inner_width=w, outer_width=w + rng.randint(1, 20), inner_height=h, outer_height=h + rng.randint(1, 40) / 2,
+                            angle=S.q(0.0, 'deg'))
+            inc = rng.choice(['absent', 'absent', False])
+            if inc != 'absent':
+                reg['meta'] = {'include': inc}
+            sub = 1 if 'Annulus' in cls else rng.choice([1, 1, 2, 4])
+            yield {'lane': 'lattice', 'region': reg, 'mode': 'center' if sub == 1 and rng.random() < 0.7 else 'subpixels', 'n': sub}
+            continue
         big = r > 0.97
         reg = mask_region_spec(rng, big=big)
         annulus = 'Annulus' in reg['cls']
@@ -117,6 +141,8 @@ def run_case(case, obs):
         return run_unsupported(case, obs)
     region = S.build(case['region'])
     mode, n = case['mode'], case['n']
+    if case['lane'] == 'lattice':
+        return run_lattice(case, obs, region, mode, n)
     if mode == 'center':
         m = region.to_mask(mode='center') if n % 2 else region.to_mask()      # default mode is 'center'
     else:
@@ -152,6 +178,56 @@ def run_case(case, obs):
         mc = region.to_mask(mode='center')
         obs.check(np.array_equal(np.asarray(m1.data), np.asarray(mc.data)) and m1.data.shape == mc.data.shape,
                   'n1-differs-from-center', f'{cls}: subpixels=1 mask differs from centre mask', 'n1-equals-center')
+
+
+def run_lattice(case, obs, region, mode, n):
+    """exact comparison of a mask with the membership function at its sample positions (all arithmetic exact)."""
+    import regions
+    cls = type(region).__name__
+    if 'Annulus' in cls or mode == 'center':
+        m = region.to_mask(mode='center')
+    else:
+        m = region.to_mask(mode='subpixels', subpixels=n)
+    bb = m.bbox
+    data = np.asarray(m.data, dtype=float)
+    ny, nx = data.shape
+    off = (np.arange(n) + 0.5) / n - 0.5                      # dyadic sample offsets inside a pixel
+    xs = (np.arange(bb.ixmin, bb.ixmax)[:, None] + off[None, :]).ravel()
+    ys = (np.arange(bb.iymin, bb.iymax)[:, None] + off[None, :]).ravel()
+    X, Y = np.meshgrid(xs, ys)
+    # the shape itself (the flag is not part of a mask: masks describe the included shape)
+    shape = region.copy(meta=regions.RegionMeta())
+    member = np.asarray(shape.contains(regions.PixCoord(X, Y)), dtype=float)
+    exp = member.reshape(ny, n, nx, n).mean(axis=(1, 3))
+    bad = data != exp
+    obs.count('lattice-samples-exactly-on-outline', int(on_outline(shape, X, Y)))
+    if bad.any():
+        j, i = [int(v[0]) for v in np.nonzero(bad)]
+        obs.violation('lattice-mask-differs-from-exact-membership:' + cls,
+                      f'{cls} {mode} n={n}: pixel ({bb.ixmin + i}, {bb.iymin + j}) has value {data[j, i]!r}, the membership function at its '
+                      f'{n * n} sample position(s) averages {exp[j, i]!r} (exact arithmetic); {int(bad.sum())} pixels differ', region=repr(region)[:200])
+    else:
+        obs.ok(int(data.size), 'lattice-mask')
+    # the membership function itself on the lattice, against integer arithmetic (circles: strictly inside)
+    if cls == 'CirclePixelRegion':
+        cx8, cy8, r8 = int(round(region.center.x * 8)), int(round(region.center.y * 8)), int(round(region.radius * 8))
+        d2 = (np.round(X * 8).astype(np.int64) - cx8) ** 2 + (np.round(Y * 8).astype(np.int64) - cy8) ** 2
+        obs.check(bool(np.array_equal(member.astype(bool), d2 < r8 * r8)), 'lattice-membership-differs-from-integer-model',
+                  f'{cls}: contains differs from dx^2 + dy^2 < r^2 in integer arithmetic on the 1/8 lattice', 'lattice-mask')
+
+
+def on_outline(shape, X, Y):
+    cls = type(shape).__name__
+    if cls == 'CirclePixelRegion':
+        d2 = (X - shape.center.x) ** 2 + (Y - shape.center.y) ** 2
+        return np.sum(d2 == shape.radius ** 2)
+    if cls == 'CircleAnnulusPixelRegion':
+        d2 = (X - shape.center.x) ** 2 + (Y - shape.center.y) ** 2
+        return np.sum((d2 == shape.inner_radius ** 2) | (d2 == shape.outer_radius ** 2))
+    if cls == 'RectanglePixelRegion':
+        dx, dy = np.abs(X - shape.center.x), np.abs(Y - shape.center.y)
+        return np.sum(((dx == shape.width / 2) & (dy <= shape.height / 2)) | ((dy == shape.height / 2) & (dx <= shape.width / 2)))
+    return 0
 
 
 UNSUPPORTED = [('RectanglePixelRegion', 'exact', 5), ('PolygonPixelRegion', 'exact', 5), ('RegularPolygonPixelRegion', 'exact', 5),
